@@ -241,4 +241,16 @@ theorem cv_join1 {s : Sys} (h : Ok s) (hn : (cv s).nrd = 1) :
   unfold cv
   rw [b1, b2, b3, b4, (b5 0 (by omega)).1, (b5 0 (by omega)).2, hacc, hn, r0]
 
+/-- a reader's region lies inside the committed bytes -/
+theorem cv_i0_le {s : Sys} (h : Ok s) (hn : 1 ≤ (cv s).nrd) : (cv s).i0 + (cv s).l0 ≤ (cv s).total := by
+  obtain ⟨cap, g, hr⟩ := h
+  replace hn : 1 ≤ s.rds.length := hn
+  show nth s.idx 0 + regionLen s 0 ≤ s.total
+  cases hm : (nth s.rds 0).mapped with
+  | true => exact (read_region_committed hr 0 (by omega) hm).2.2.1
+  | false =>
+    rw [regionLen_unmapped s 0 hm]
+    have := (C01.consumed_is_stream hr 0 (by omega)).2.2.1
+    omega
+
 end AcqVerif.Channel
